@@ -220,6 +220,24 @@ Theorem witness_none_cert_sound : forall S eps rows cand lam, none_cert_ok S eps
 Proof. exact none_cert_sound_lemma. Qed.
 Print Assumptions witness_none_cert_sound.
 
+(* Completeness of an implementation's returned list, certified at EVERY belief, for any solver: if each
+   vector of the model's exact list (ip_run with pointwise pruning, whose surface is EV by ip_value_pw) is
+   certified to be nowhere more than eps above the returned list G, then G's surface is at least EV - eps
+   on the whole non-negative orthant — not only at the grid beliefs the oracle samples.  (That G's surface
+   is at most EV follows from its entries being plans: C04 plan_surface_le_EV.) *)
+Theorem solver_surface_certified : forall m h eps (G : vlist) (lam : ventry -> vec),
+  wf_pomdp1 m -> obs_clean m ->
+  (forall g, In g (last (ip_run prune_pw m h) []) ->
+     none_cert_ok (nS (pm m)) eps (valsof G) (vals g) (lam g) = true) ->
+  forall b, nonneg b -> length b = nS (pm m) -> EV m h b <= vbest G b + eps * qsum b.
+Proof.
+  intros m h eps G lam Hwf Hc Hcert b Hb Hl.
+  rewrite <- (ip_value_pw m h b Hwf Hc Hb Hl).
+  apply (surface_cert_sound_lemma (nS (pm m)) eps _ G lam); try assumption.
+  exact (proj1 (ip_run_value prune_pw prune_pw_sub prune_pw_ne prune_pw_env m Hwf Hc (ops_ok_all (nO m) (HO m Hwf)) h)).
+Qed.
+Print Assumptions solver_surface_certified.
+
 (* Hence the model run that the correspondence check compares with the implementation — the agenda
    loop driven by the transcript [ans] of the real LP answers, every "no witness" answer certified by
    weights [lam] found by an untrusted search — satisfies the bound with NO assumption on [ans], [lam]. *)
